@@ -93,6 +93,28 @@ corpus["interrupt-driven-system"] = S.group_into_system(random.Random(0), scn([
     stims=[{"real": 1 * MS + 111, "comp": "trig"}, {"real": 2 * MS + 111, "comp": "slow"}, {"real": 7 * MS + 111, "comp": "trig"}]),
     ["trig", "slow"], "isys")
 
+# 6. a system input that is exposed straight through (`expose: {pt: external:x}`) and that NO inner component listens to,
+#    next to an input that is listened to; the same through two levels; values change over several ticks
+corpus["pass-through-no-listener"] = scn([
+    dev("src", outs=[counter()], cb={"kind": "period", "p": 1 * MS}),
+    dev("src2", outs=[counter(mod=4)], cb={"kind": "period", "p": 2 * MS}),
+    {"name": "psys", "kind": "sys", "inputs": {"x": ["src", "o"], "w": ["src2", "o"]},
+     "expose": {"pt": ["external", "x"], "y": ["in1", "o"], "deep": ["wrap", "pt2"]},
+     "components": [dev("in1", {"i": ["external", "w"]}, [summ()]), dev("quiet"),
+                    {"name": "wrap", "kind": "sys", "inputs": {"x2": ["external", "x"]}, "expose": {"pt2": ["external", "x2"]}, "components": [dev("idle")]}]},
+    dev("sinkpt", {"a": ["psys", "pt"]}, [summ()]),
+    dev("sinky", {"b": ["psys", "y"], "c": ["psys", "deep"]}, [summ()])], n=8)
+
+# 7. seconds and minutes of simulated time: unwired devices whose wakeups come within a few nanoseconds of each other
+#    (relative differences far below 1e-9) without being equal, and a device whose wakeups coincide exactly with another's
+SEC = 1_000 * MS
+corpus["nearly-simultaneous-wakeups"] = scn([
+    dev("sens", outs=[counter()], cb={"kind": "period", "p": 60 * SEC + 25}),
+    dev("pump", outs=[counter()], cb={"kind": "period", "p": 60 * SEC}),
+    dev("same", outs=[counter()], cb={"kind": "period", "p": 60 * SEC}),
+    dev("view", {"a": ["sens", "o"], "b": ["pump", "o"]}, [summ()]),
+    dev("hour", outs=[counter()], cb={"kind": "list", "delays": [3600 * SEC, 1, 1, None]})], n=12)
+
 os.makedirs(OUT, exist_ok=True)
 for name, s in corpus.items():
     assert s is not None and S.all_levels_acyclic(s) and S.device_rank(s) is not None, name
